@@ -3,7 +3,7 @@ sys.path.insert(0, '/verif')
 from pyvc.frontend import Program
 from pyvc.specs import REG
 from pyvc import verify, solve
-import contracts.core
+import contracts.all
 import z3
 prog = Program()
 rep = verify.verify_function(prog, REG, sys.argv[1])
